@@ -1957,7 +1957,8 @@ def _c06_paths(bodies, body, args):
         r"^Database::begin_(write|read)$": lambda ex, v: "(C_Ok %s)" % smt.const("fresh_tx"),
         r"^TransactionAndTables::new$|^ReadOnlyTables::new$": lambda ex, v: "(C_Ok (%s %s))" % (smt.fun("tables_of", 1), v[0]),
         r"^TransactionAndTables::commit$": lambda ex, v: "(C_Ok %s)" % ex._konst("unit"),
-        r"^TransactionAndTables::with_tables_mut::<": lambda ex, v: "(C_Ok %s)" % smt.const("f_result"),
+        # the caller's closure may succeed or fail: an opaque result (its `?` then forks into both arms)
+        r"^TransactionAndTables::with_tables_mut::<": lambda ex, v: smt.const("f_result"),
         r"^<Duration as PartialOrd>::gt$": lambda ex, v: "AGE_GT",
         r" as Try>::branch$": m_branch,
     })
@@ -2091,6 +2092,10 @@ def q_c06_txn_glue(bodies):
                 # was committed behind the age test — never nothing (dropping an open write transaction discards the writes
                 # made through it, which earlier operations already acknowledged)
                 gw = [w for w in env.get("__writes", []) if w[0] == "deref-write"]
+                took = any(n == "std::mem::take::<CurrentTransaction>" for n in names)
+                if took and not gw:
+                    # (begin_write / TransactionAndTables::new / commit answer Ok in this query, so nothing but the glue can leave early)
+                    problems.append(("%s puts a write transaction back into the store's slot on every way out, also when the caller's closure fails (an open transaction that is dropped takes the acknowledged writes of earlier operations with it)" % label, "sat"))
                 if gw:
                     last = gw[-1][2]
                     if not last.startswith("(mk_CurrentTransaction__Write "):
@@ -2971,3 +2976,10 @@ QUERIES["C14"] = QUERIES.get("C14", []) + [q_c06_txn_glue]
 # ------------------------------------------------------------------------------------------------
 from queries_c05new import QUERIES_C05NEW  # noqa: E402
 QUERIES["C05"] = QUERIES.get("C05", []) + QUERIES_C05NEW
+
+
+# ------------------------------------------------------------------------------------------------
+# C07: Store::import_namespace (merge with the stored capability inside one transaction)
+# ------------------------------------------------------------------------------------------------
+from queries_c07 import QUERIES_C07  # noqa: E402
+QUERIES["C07"] = QUERIES.get("C07", []) + QUERIES_C07
